@@ -200,18 +200,26 @@ def run():
         "pickle": (pickle.dumps({"a": [1, 2], "s": "x"}, protocol=4), pickle.dumps({"a": [1, 3], "s": "y"}, protocol=2)),
         "csv": (b"a,b\n1,caf\xc3\xa9\n", b"a,b\n1,cafe\n2,3\n"),
     }
+    # values with characters that str.splitlines() treats as line breaks (form feed, separators, NEL, LS / PS): whatever
+    # buffers the command's output line by line must not touch them
+    seps = "al\x0cpha be\x1dta ga\x85mma de\u2028lta ep\u2029silon ze\x0bta e\x1cta"
+    stdin_docs["csv-separators"] = (("id,name\n1,%s\n2,x\n" % seps).encode("utf-8"), ("id,name\n1,%s\n3,y\n" % seps).encode("utf-8"))
+    stdin_docs["xml-separators"] = (("<r><n>%s</n></r>" % seps.replace("\x0c", "").replace("\x1d", "").replace("\x0b", "").replace("\x1c", "")).encode("utf-8"),
+                                    ("<r><n>%s</n><m/></r>" % seps.replace("\x0c", "").replace("\x1d", "").replace("\x0b", "").replace("\x1c", "")).encode("utf-8"))
     sgroups, smeta = [], []
     for typ, (ca, cb) in sorted(stdin_docs.items()):
         for same in (False, True):
             cb2 = ca if same else cb
             fa = mats.file(ca, ".dat", "sa")
             fb = mats.file(cb2, ".dat", "sb")
-            sel = ["--from-%s" % typ, "--to-%s" % typ, "--no-status", "--no-color"]
+            ftyp = typ.split("-")[0]
+            sel = ["--from-%s" % ftyp, "--to-%s" % ftyp, "--no-status", "--no-color"]
             runs = [("by path", [fa, fb] + sel, None), ("first file on standard input", ["-", fb] + sel, ca),
-                    ("second file on standard input", [fa, "-"] + sel, cb2)]
+                    ("second file on standard input", [fa, "-"] + sel, cb2),
+                    ("by path, status output left on", [fa, fb] + [x for x in sel if x != "--no-status"], None)]
             obs = []
             from concurrent.futures import ThreadPoolExecutor
-            with ThreadPoolExecutor(max_workers=3) as tp:
+            with ThreadPoolExecutor(max_workers=4) as tp:
                 outs = list(tp.map(lambda x: clim.run_subprocess(x[1], stdin=x[2]), runs))
             for (how, argv, data), res in zip(runs, outs):
                 obs.append({"k": "stdin|%s|%s" % (typ, same), "v": "%s/%s" % (digest(res["out"].decode("latin-1")), res["rc"]),
